@@ -39,6 +39,9 @@ def classify_hfail(line):
         return "string-blank-or-empty"
     if kind == "reload-content-differs:adjacent-text-merged" and "adjacent-text-items" in causes:
         return "adjacent-text-items-merge"
+    # the two recorded classes together (string values trimmed AND neighbouring texts merged), nothing else differs
+    if kind == "reload-content-differs:string-blank-and-adjacent-text" and "adjacent-text-items" in causes:
+        return "adjacent-text-items-merge"
     if kind == "warning:LOAD-ERROR:OverlappingDataError" and "duplicate-path" in causes:
         return "duplicate-path-unloadable"
     if kind in VERSION_FAILS and "mixed-version-files" in causes:
